@@ -287,6 +287,13 @@ Definition ep_dump_di (v : pyval) : pyval :=
   | _ => bad_input
   end.
 
+Definition ep_di_applicable (v : pyval) : pyval :=
+  match v with
+  | PDict d => PBool (di_applicableb {| di_timestamp := fld_or_none d (lit "timestamp"); di_description := fld_or_none d (lit "description");
+                                        di_arch := fld_or_none d (lit "arch"); di_disc_numbers := fld_or_none d (lit "disc_numbers") |})
+  | _ => bad_input
+  end.
+
 Definition ep_load_di (v : pyval) : pyval :=
   match v with
   | PStr text => out_result (fun d => PList [di_timestamp d; di_description d; di_arch d; di_disc_numbers d;
@@ -319,7 +326,7 @@ Definition ep_print_ini (v : pyval) : pyval :=
   match get_ini v with Some t => PStr (print_ini t) | None => bad_input end.
 
 Definition entries_ti : list (str * (pyval -> pyval)) :=
-  [ (lit "dump_ti", ep_dump_ti); (lit "load_ti", ep_load_ti); (lit "dump_di", ep_dump_di); (lit "load_di", ep_load_di); (lit "print_ini", ep_print_ini);
+  [ (lit "dump_ti", ep_dump_ti); (lit "load_ti", ep_load_ti); (lit "dump_di", ep_dump_di); (lit "load_di", ep_load_di); (lit "di_applicable", ep_di_applicable); (lit "print_ini", ep_print_ini);
     (lit "release_00", ep_release_00);
     (lit "paths_00", ep_paths_00) ].
 
